@@ -2,6 +2,7 @@
 
 from __future__ import annotations
 
+import gc
 import os
 import shutil
 import sqlite3
@@ -152,7 +153,7 @@ class DedupChecker(Checker):
         count = world.c.count_objects()
         if count.packed + count.loose - len(set(by_key) & set(raw.loose_paths)) != len(world.model):
             raise world.viol('dedup:count_objects', f'count_objects {count} inconsistent with {len(world.model)} distinct contents')
-        if rop.get('op') == 'addpack' and rop['no_holes']:
+        if rop.get('op') in ('addpack', 'addpack_off') and rop['no_holes']:
             before = self._before
             unref_before = _unreferenced(before)
             unref_after = _unreferenced(raw)
@@ -173,7 +174,7 @@ class DedupChecker(Checker):
                 )
             # the order that defeats "sizes coincide": a repeat of packed content followed by a new content
             seen_known = False
-            for key in rop['keys']:
+            for key in rop.get('keys', []):
                 if key in known:
                     seen_known = True
                 elif seen_known:
@@ -495,6 +496,10 @@ class FdChecker(Checker):
 
     def __init__(self):
         self.max_seen = 0
+        # a descriptor that is only closed when the cyclic garbage collector happens to run is a leak: the census must not
+        # depend on when that is, so the collector is off for the duration of a case (reference counting still frees at once)
+        gc.collect()
+        gc.disable()
 
     def after(self, world, rop, result):
         fds = container_fds(world.root)
@@ -509,7 +514,10 @@ class FdChecker(Checker):
             raise world.viol('fd:accumulate', f'after {rop.get("op")}: {idx} index descriptors open (limit {limit}): {sorted(t for _, t in fds)}')
 
     def final(self, world):
-        world.close()
-        fds = container_fds(world.root)
-        if fds:
-            raise world.viol('fd:after-close', f'after close(): descriptors still open: {sorted(t for _, t in fds)}')
+        try:
+            world.close()
+            fds = container_fds(world.root)
+            if fds:
+                raise world.viol('fd:after-close', f'after close(): descriptors still open: {sorted(t for _, t in fds)}')
+        finally:
+            gc.enable()
